@@ -1,0 +1,63 @@
+//! Verification hooks, compiled only with the `verif-hooks` feature.
+//!
+//! Every hook is a thread-local slot holding a plain function pointer.  Nothing is registered by
+//! default, in which case every hook is a no-op and the shipped code path runs unchanged.  A
+//! deterministic-simulation harness registers callbacks on the thread that runs the code under
+//! test.  Slots are `Cell`s of `Copy` function pointers so that no borrow is held while a callback
+//! runs (a callback may switch to another simulated thread that re-enters the same hook).
+
+use crate::consist::locomotive::loco_sim::LocomotiveSimulation;
+use crate::meet_pass::disp_structs::{DispAuth, TrainIdx};
+use crate::meet_pass::train_disp::TrainDisp;
+use std::cell::Cell;
+
+pub type YieldFn = fn();
+pub type ParWalkFn = fn(&mut [LocomotiveSimulation]) -> anyhow::Result<()>;
+pub type DispatchObserverFn = fn(&DispatchSnapshot);
+
+/// What the dispatch observer is shown (borrowed from the locals of `run_dispatch`).
+pub struct DispatchSnapshot<'a> {
+    /// "move" after a train was moved (end of one outer-loop iteration), "final" before returning
+    pub phase: &'static str,
+    /// train that was just moved (`None` for "final")
+    pub train_idx_curr: TrainIdx,
+    pub link_disp_auths: &'a [Vec<DispAuth>],
+    pub links_blocked: &'a [TrainIdx],
+    pub train_disps: &'a [TrainDisp],
+}
+
+thread_local! {
+    static YIELD: Cell<Option<YieldFn>> = const { Cell::new(None) };
+    static PAR_WALK: Cell<Option<ParWalkFn>> = const { Cell::new(None) };
+    static DISPATCH_OBSERVER: Cell<Option<DispatchObserverFn>> = const { Cell::new(None) };
+}
+
+pub fn set_yield(f: Option<YieldFn>) {
+    YIELD.with(|c| c.set(f));
+}
+pub fn set_par_walk(f: Option<ParWalkFn>) {
+    PAR_WALK.with(|c| c.set(f));
+}
+pub fn set_dispatch_observer(f: Option<DispatchObserverFn>) {
+    DISPATCH_OBSERVER.with(|c| c.set(f));
+}
+
+/// Scheduling point: called once per simulation step of `LocomotiveSimulation::walk`.
+#[inline]
+pub fn yield_point() {
+    if let Some(f) = YIELD.with(|c| c.get()) {
+        f()
+    }
+}
+
+/// Executor seam for the parallel branch of `LocomotiveSimulationVec::walk`: when an executor is
+/// registered it runs the batch and its result is returned; otherwise `None` and rayon runs.
+pub fn try_par_walk(sims: &mut [LocomotiveSimulation]) -> Option<anyhow::Result<()>> {
+    PAR_WALK.with(|c| c.get()).map(|f| f(sims))
+}
+
+pub fn dispatch_observe(snapshot: &DispatchSnapshot) {
+    if let Some(f) = DISPATCH_OBSERVER.with(|c| c.get()) {
+        f(snapshot)
+    }
+}
